@@ -243,7 +243,10 @@ CHECKS["C03"] = dict(
          "from the two surface conditions, d(r^2 s_rr)/dr = r (s_rr + s_tt), the axial slope is E.  Tied to the code by "
          "evaluating connectivity and the assembled unit-pressure load of real scikit-fem states against the model in Coq, and "
          "by solves: second-order convergence of element-mean stresses to the closed form (1D, 2D), 2D = 3D to solver "
-         "accuracy, 1D vs 2D converging with nt, axial force closed form, stiffness*h/area = E.",
+         "accuracy, 1D vs 2D converging with nt, axial force closed form, stiffness*h/area = E; and by an exact certificate for "
+         "the 1D abstraction: a Gallina model of the axisymmetric finite-element equations (weak form, strains, Hooke, inner-node "
+         "pressure, axial force; scikit-fem's quadrature points passed as the rationals their floats are) is evaluated at the "
+         "stored displacements: zero residual, stored stresses and axial force reproduced.",
     note="partial: convergence of the finite-element solution to the closed form and agreement of the abstractions are "
          "checked on sampled problems (mesh-accuracy bounds calibrated: 1.0*(dr/t)^2 in 1D, 1.5*((dr/t)^2 + (pi/nt)^2 r/t) in 2D), "
          "not proved; scikit-fem assembly and NEML are trusted; odd nt is outside the property.",
